@@ -753,7 +753,10 @@ def run(chk):
                 "lines aimed at lattice points of the triangle's plane incl. edges and vertices), a FAR class translated by (1024,-2048,512), exactly "
                 "parallel and nearly parallel (direction ratio 4..64) line pairs, an overflow-guard class (unit directions at angle 2^-20..2^-5, positions "
                 "scaled by a power of two so that the exact guard predicate on the stored values is ~4 or ~1/4), projective matrices with last column "
-                "(a,b,c,16)/16; float and double; decisions within c*eps of an edge / tangency / parallelism are counted, not judged")
+                "(a,b,c,16)/16; float and double; decisions within c*eps of an edge / tangency are counted with a ceiling on the share that differs, not judged; "
+                "lattice-parallel line pairs / line-plane pairs are judged against the lattice answer (three open findings, share ceilings). exact Rat "
+                "grid (triangle (0,0,0),(3,0,0),(0,4,0) x half-integer grid x |pos.z| in {1, tmax, 2 tmax}; sphere radius 5 x 7 offsets x 33 origins): quick "
+                "tier = all boundary configurations + every 7th other")
     bins = troute.build_extractors(chk, [dict(name="sym_leaf", source="sym/sym_leaf.cpp"), dict(name="sym_c15", source="sym/sym_c15.cpp"),
                                          dict(name="sym_c15b", source="sym/sym_c15b.cpp"), dict(name="c15_residue", source="corr/c15_residue.cpp")])
     leaf_idx = os.path.join(troute.GEN, "index_leaf.txt")
